@@ -698,6 +698,9 @@ structure WSig where
   sg : SgLine
   comment : Option Str := none
   values : List (Int × Str) := []     -- the value table, in the order the `VAL_` line lists it
+  isFloat : Bool := false             -- `SIG_VALTYPE_`
+  muxer : Option Str := none          -- extended multiplexing: the multiplexer the signal is bound to and the selector ranges
+  ranges : List (Nat × Nat) := []
   deriving Repr, DecidableEq, Inhabited
 
 structure WFrame where
@@ -705,6 +708,7 @@ structure WFrame where
   sigs : List WSig
   moreSenders : List Str := []     -- the senders after the first
   comment : Option Str := none
+  groups : List RGroup := []
   deriving Repr, DecidableEq, Inhabited
 
 def WFrame.block (f : WFrame) : Block := ⟨f.bo, f.sigs.map (·.sg)⟩
@@ -725,27 +729,42 @@ def WFrame.sigCmStmts (f : WFrame) : List FileStmt :=
 def WFrame.valStmts (f : WFrame) : List FileStmt :=
   f.sigs.filterMap fun s => if s.values.isEmpty then none else some (.one (.val ⟨f.bo.id, s.sg.name, s.values⟩))
 
+def WFrame.valtypeStmts (f : WFrame) : List FileStmt :=
+  f.sigs.filterMap fun s => if s.isFloat then some (.one (.valtype ⟨f.bo.id, s.sg.name, decide (s.sg.size > 32)⟩)) else none
+
+def WFrame.grpStmts (f : WFrame) : List FileStmt :=
+  f.groups.map fun g => .one (.grp ⟨f.bo.id, g.name, g.id, g.members⟩)
+
+def WFrame.mulStmts (f : WFrame) : List FileStmt :=
+  f.sigs.filterMap fun s => s.muxer.map fun mx => .one (.mul ⟨f.bo.id, s.sg.name, mx, s.ranges⟩)
+
 /-- the lines of the core of a file: frame section, further senders, comments of the frames, comments of the signals, value tables of the
-signals (the sections in the order of `dump`; the attribute statements that stand between the comments and the `VAL_` lines are not
-part of the core) -/
+signals, float types, signal groups, extended-multiplexing bindings (the sections in the order of `dump`; the attribute statements that
+stand between the comments and the `VAL_` lines are not part of the core) -/
 def writeCore (fs : List WFrame) : List Str :=
   writeFrames (fs.map WFrame.block) ++
-  writeFile (fs.flatMap WFrame.txStmts ++ fs.flatMap WFrame.cmStmts ++ fs.flatMap WFrame.sigCmStmts ++ fs.flatMap WFrame.valStmts)
+  writeFile (fs.flatMap WFrame.txStmts ++ fs.flatMap WFrame.cmStmts ++ fs.flatMap WFrame.sigCmStmts ++ fs.flatMap WFrame.valStmts ++
+    fs.flatMap WFrame.valtypeStmts ++ fs.flatMap WFrame.grpStmts ++ fs.flatMap WFrame.mulStmts)
 
 /-- what the reader is expected to have built for such a frame (numbers of the `SG_` lines as they are read back) -/
 def WFrame.expect (f : WFrame) (k : Nat × Bool) : RFrame :=
   { key := k, name := f.bo.name, size := f.bo.size, transmitters := f.senders,
-    sigs := f.sigs.map fun s => { sg := rereadSg s.sg, comment := s.comment, values := s.values },
-    comment := f.comment, complexMux := f.sigs.any fun s => tagIsValMuxer s.sg.tag }
+    sigs := f.sigs.map fun s => { sg := rereadSg s.sg, comment := s.comment, values := s.values, isFloat := s.isFloat,
+                                  muxer := s.muxer, ranges := s.ranges },
+    comment := f.comment, groups := f.groups,
+    complexMux := (f.sigs.any fun s => tagIsValMuxer s.sg.tag) || f.sigs.any fun s => s.muxer.isSome }
 
 /-- the envelope: well-formed lines, the number denotes the identifier `k`, senders pairwise different identifiers, comments the statement
-can carry, value texts without backslash or line break and pairwise different keys, signal names pairwise different -/
+can carry, value texts without backslash or line break and pairwise different keys, bindings with ranges, groups of pairwise different existing
+signals, signal names pairwise different -/
 def WFrame.wf (f : WFrame) (k : Nat × Bool) : Bool :=
   wfBlock f.block && boKey f.bo == some k && keyOfCompound f.bo.id == some k &&
   f.senders.all isIdent && decide f.senders.Nodup &&
   (match f.comment with | some c => wfComment c | none => true) &&
   f.sigs.all (fun s => match s.comment with | some c => wfComment c | none => true) &&
   f.sigs.all (fun s => s.values.all (fun e => wfText e.2) && decide ((s.values.map (·.1)).Nodup)) &&
+  f.sigs.all (fun s => match s.muxer with | some mx => isIdent mx && !s.ranges.isEmpty | none => s.ranges.isEmpty) &&
+  f.groups.all (fun g => isIdent g.name && decide g.members.Nodup && g.members.all fun n => (f.sigs.map (·.sg.name)).contains n) &&
   decide ((f.sigs.map (·.sg.name)).Nodup)
 
 end CanVerif.Dbc
